@@ -387,11 +387,29 @@ def check_unknown(res, T, O):
         res.violation('C18', 'C18|get_register|guard', f, f.line, 'get_register calls get_register_always without the register_is_valid guard')
     # validity sets in the unwinder only receive names through memoize / literals checked elsewhere (C04.6)
     d = c.fn('minidump::context::default_memoize_register')
-    O['n'] += 1
-    if d is not None and any(f2.callee(t).endswith('Iterator::position') or 'position' in f2.callee(t) for f2 in [d] for b, t in d.calls()):
-        O['ok'] += 1
-    else:
-        res.violation('C18', 'C18|default_memoize', d, d.line if d else None, 'default_memoize_register does not search REGISTERS')
+    cl = c.fn('minidump::context::default_memoize_register::{closure#0}')
+    O['n'] += 3
+    # (a) the search is registers.iter().position(closure(reg)) over the first argument
+    ok_a = False
+    if d is not None:
+        for b_, t in d.calls():
+            if (d.callee(t) or '').endswith('Iterator>::position') or (d.callee_decl(t) or '').endswith('Iterator::position'):
+                it = show(d.expand(d.operand_tree(t['args'][0])))
+                it_src = [show(d.expand(d.call_tree(t2))) for _, t2 in d.calls() if (d.callee(t2) or '').endswith('slice::iter')]
+                cl_arg = show(d.expand(d.operand_tree(t['args'][1])))
+                ok_a = it_src == ['(core::slice::iter registers)'] and cl_arg == '(closure minidump::context::default_memoize_register::{closure#0} reg)'
+    # (b) the predicate is exact string equality with the queried name - the match arms of get / set / is_valid are exact
+    #     literals, so any looser predicate (case-insensitive, prefix, trimmed) lets a name be "known" that no arm handles
+    ok_b = cl is not None and [show(cl.expand(t)) for (b, i, t) in ret_assigns(cl)] in (['(std::cmp::impls::eq val reg)'], ['(core::str::traits::eq val reg)'], ['(core::cmp::impls::eq val reg)'])
+    # (c) what is returned is the table's own spelling at the found index
+    ok_c = d is not None and any(re.match(r"^\(adt std::option::Option::Some \(index registers \(Continue\.0 \(trybranch \(<std::slice::Iter<'a, T> as std::iter::Iterator>::position (_\d+|\(core::slice::iter registers\)) \(closure minidump::context::default_memoize_register::\{closure#0\} reg\)\)\)\)\)\)$", show(d.expand(t))) for (b, i, t) in ret_assigns(d))
+    for okx, key, msg in ((ok_a, 'search', 'default_memoize_register is not registers.iter().position(|val| ..)'),
+                          (ok_b, 'predicate', 'default_memoize_register does not compare names with exact equality (*val == reg): a name can then be memoized that the exact-literal arms of get_register / set_register do not handle'),
+                          (ok_c, 'result', 'default_memoize_register does not return registers[idx] for the found index')):
+        if okx:
+            O['ok'] += 1
+        else:
+            res.violation('C18', 'C18|default_memoize|%s' % key, d, d.line if d else None, msg)
 
 
 def run(tier, t0):
